@@ -238,7 +238,8 @@ def correspondence(ctx: Ctx, sigs):
 # canonical corpus (runs first, fixed order): inputs on which defects were found
 CORPUS = [("HandyModRTransform", dict(rmin=0.0, rmax=10.0, m=3), 0.0)]
 
-KIND_OF = {"inv_tf": "inverse(transform(x)) = x", "tf_inv": "transform(inverse(r)) = r", "d1": "deriv", "d2": "deriv2", "d3": "deriv3",
+KIND_OF = {"dtype_transform": "point-array dtype", "dtype_deriv": "point-array dtype", "dtype_deriv2": "point-array dtype", "dtype_deriv3": "point-array dtype",
+           "inv_tf": "inverse(transform(x)) = x", "tf_inv": "transform(inverse(r)) = r", "d1": "deriv", "d2": "deriv2", "d3": "deriv3",
            "id1": "deriv_inverse", "id2": "deriv2_inverse", "id3": "deriv3_inverse", "mono": "monotone", "ends": "end points", "reuse": "same-array reuse", "trim": "infinity trimming", "extreme": "extreme admissible parameters"}
 
 
@@ -409,6 +410,33 @@ def sweep(ctx: Ctx):
                                 if not np.allclose(got, fresh, rtol=1e-12, atol=0, equal_nan=True):
                                     first.setdefault((cname, "reuse"), (p, f"{'InverseRTransform.' if wrap else ''}{m1}(a) then {m2}(a) on the same array a = {a.tolist()} (a is now {buf.tolist()})",
                                                                         float(got[0]), float(fresh[0])))
+    # the values do not depend on the dtype of the point array: integer-typed (and float32) arrays of interior points give what the
+    # float64 array of the same numbers gives
+    for cname in CLASSES:
+        rr = __import__("random").Random(f"dtype:{cname}")
+        p, (lo, hi), _ = sample_params(cname, rr)
+        if cname == "HyperbolicRTransform":
+            p = dict(p, b=min(p["b"], 0.05))
+        ints = [v for v in (0,) if lo < v < hi] if hi <= 1 else [v for v in range(1, 9) if lo < v < min(hi, 0.9 / p["b"] if cname == "HyperbolicRTransform" else hi)]
+        if not ints:
+            continue
+        for wrap in (False,):
+            for dt, rtol in ((np.int64, 1e-13), (np.int32, 1e-13), (np.float32, 1e-6)):
+                xi = np.array(ints, dtype=dt)
+                for m in ("transform", "deriv", "deriv2", "deriv3"):
+                    try:
+                        with warnings.catch_warnings():
+                            warnings.simplefilter("ignore")
+                            with np.errstate(all="ignore"):
+                                got = np.asarray(getattr(make_tf(cname, p, True), m)(xi), dtype=float)
+                                ref = np.asarray(getattr(make_tf(cname, p, True), m)(xi.astype(np.float64)), dtype=float)
+                    except Exception as e:  # noqa: BLE001
+                        first.setdefault((cname, f"dtype_{m}"), (p, f"{m} on the {np.dtype(dt).name} array {ints}", f"{type(e).__name__}: {str(e)[:50]}", "the values of the float64 array"))
+                        continue
+                    npts += 1
+                    if got.shape != ref.shape or not np.allclose(got, ref, rtol=rtol, atol=0):
+                        j = int(np.argmax(np.abs(got - ref))) if got.shape == ref.shape else 0
+                        first.setdefault((cname, f"dtype_{m}"), (p, f"{m} on the {np.dtype(dt).name} array {ints} (element {j})", float(got.ravel()[j]), float(ref.ravel()[j])))
     # admissibility boundary of the size-dependent guard of HyperbolicRTransform: every N-point array with b*(N-1) < 1 is admissible
     for N in (2, 3, 5, 10, 33):
         for b_ in (1.0 / (N - 0.5), 0.999 / (N - 1), 1.0 / N):
